@@ -33,7 +33,7 @@ PROFILES = {
     'appendonly': dict(pool=10, sizes='small', nops=(10, 30), two=0.4, small_target=0.85,
                        weights={'addLoose': 24, 'addPacked': 24, 'packAll': 14, 'clean': 7, 'import': 10, 'reopen': 8, 'loosen': 3}),
     'import': dict(pool=10, sizes='small', nops=(8, 22), two=1.0, thresholds=0.3,
-                   weights={'addLoose': 18, 'addPacked': 14, 'packAll': 8, 'import': 30, 'delete': 4, 'clean': 4, 'repack': 3, 'reopen': 2}),
+                   weights={'addLoose': 18, 'addPacked': 14, 'packAll': 8, 'import': 24, 'importMany': 10, 'delete': 4, 'clean': 4, 'repack': 3, 'reopen': 2}),
     'bulk': dict(pool=14, sizes='tiny', nops=(8, 22), two=0.3, thresholds=True,
                  weights={'addLoose': 26, 'addPacked': 20, 'packAll': 14, 'clean': 10, 'delete': 8, 'import': 8, 'repack': 3, 'loosen': 3}),
 }
